@@ -80,14 +80,14 @@ func runServeInproc(c *hsCase, census bool) (obs c14Obs) {
 				case "unknown0":
 					return &lime.AuthenticationResult{}, nil
 				}
-				return nil, errCallback
+				return nil, callbackError(len(c.Recvs))
 			case map[string]interface{}:
 				b, _ := json.Marshal(o["rt"])
 				var va codec.VAuth
 				json.Unmarshal(b, &va)
 				return &lime.AuthenticationResult{Role: lime.DomainRoleUnknown, RoundTrip: toAuth(&va)}, nil
 			}
-			return nil, errCallback
+			return nil, callbackError(len(c.Recvs))
 		},
 		Register: func(_ context.Context, n lime.Node, _ *lime.ServerChannel) (lime.Node, error) {
 			cbmu.Lock()
@@ -98,7 +98,7 @@ func runServeInproc(c *hsCase, census bool) (obs c14Obs) {
 			}
 			ri++
 			if res == nil {
-				return lime.Node{}, errCallback
+				return lime.Node{}, callbackError(len(c.Recvs))
 			}
 			return lnode(*res), nil
 		},
